@@ -117,7 +117,12 @@ pub fn handle(op: &str, req: &Value) -> Option<Value> {
             *tensor_blob::VERIF_REFCOUNT_WINDOW.write().unwrap() = None;
             b_out = match slot.lock().unwrap().take() { Some(h) => json!(h.join().unwrap_or_else(|_| Err("panicked".into()))), None => json!("window not reached") };
         },
-        "store_chunk" => a_out = json!(run(&blob, "store", target(&req["content_equals"]))),
+        "store_chunk" => {
+            // the writer has already stored `writer_already_stored` in this artifact: one put whose data repeats those chunks
+            let mut data: Vec<u8> = req["writer_already_stored"].as_array().into_iter().flatten().flat_map(|i| content(i.as_u64().unwrap_or(0))).collect();
+            data.extend(content(target(&req["content_equals"]).unwrap_or(7)));
+            a_out = json!(block_on(blob.put("g", &data, PutOptions::default())).map_err(|e| e.to_string()));
+        },
         _ => a_out = json!(run(&blob, "delete", target(&req["deletes"]))),
     }
     let post = mismatches(&store);
